@@ -1,8 +1,9 @@
 """C16 — the LCD filter simplifies style and layout but keeps the text timeline.
 
 Theorems: coq/Properties/C16.v (rose-tree induction over the transcription coq/Model/Lcd.v; S = coq/Spec/LcdSpec.v).
-M follows /repo at fix a7b547e (bg_color without body) and fix c0beb1f (end=0 in the fingerprint); their witnesses are
-regression witnesses in harness/witnesses_c16.py.
+M follows /repo at fix a7b547e (bg_color without body), fix c0beb1f (end=0 in the fingerprint), fix d8691ec (extent computed
+before tts:position), fix 5958b0b (tts:position supported on regions only) and fix 2d34128 (tts:textAlign in the fingerprint
+when it is preserved); their witnesses are regression witnesses in harness/witnesses_c16.py.
 Tie: random documents (docgen.Gen, then regions re-dressed here with origin / position / extent in every unit,
 writing modes, colliding timings, several animation steps per element) x configurations (safe_area 0/5/10/30,
 preserve_text_align, color, bg_color).  LCDDocFilter(config).process(doc) is run on the real objects; inside Coq
@@ -21,10 +22,12 @@ PROP = "C16"
 HEADER = ("From TT Require Import Model.Doc Gen.StyleTables Model.Isd Model.IsdCases Model.Lcd Spec.IsdSpec Spec.LcdSpec Model.LcdCases.\n"
           "Open Scope Z_scope.\n")
 EXN = {"AttributeError": 2, "AssertionError": 2, "ValueError": 2}      # anything else: 99 (the model has no such outcome)
+# since fix d8691ec the model has no failing outcome on well-typed documents at all: any exception is a violation
 STATIC = ["no animation step", "style whitelist", "safe area", "merged regions pairwise different", "references redirected",
           "filter succeeds", "model on the implementation's result is the identity"]
-FINDINGS = ["lcd-position", "lcd-position-survives", "lcd-nested-region-conflict", "lcd-preserve-text-align-merge"]
-TRIGS = ["position", "position_content", "nested", "no_hiding", "wf", "tie"]
+FINDINGS = ["lcd-nested-region-conflict"]
+REPAIRED = ["lcd-position", "lcd-position-survives", "lcd-preserve-text-align-merge"]     # their witnesses must pass
+TRIGS = ["nested", "no_hiding", "wf", "tie"]
 
 
 # ------------------------------------------------------------------ documents and configurations
@@ -46,9 +49,14 @@ def redress(rng, d, hide):
         if rng.random() < 0.25:      # around the 50 % line that decides displayAlign
             r.set_style(SP.Origin, s.CoordinateType(x=L(F(rng.randint(38, 62)), U.pct), y=L(F(rng.randint(38, 62)), rng.choice([U.pct, U.rh]))))
         if r.get_style(SP.Position) is not None and rng.random() < 0.8: r.set_style(SP.Position, None)
-        if r.get_style(SP.Position) is None and rng.random() < 0.07: r.set_style(SP.Position, docgen.rvalue(rng, SP.Position))
-        if r.get_style(SP.Position) is not None and rng.random() < 0.7:
+        if r.get_style(SP.Position) is None and rng.random() < 0.15: r.set_style(SP.Position, docgen.rvalue(rng, SP.Position))
+        # (since fix d8691ec positioned regions work with any extent: %, px, c, rh/rw, none — all are generated)
+        if r.get_style(SP.Position) is not None and rng.random() < 0.15:
             r.set_style(SP.Extent, s.ExtentType(height=docgen.rlen(rng, [U.rh]), width=docgen.rlen(rng, [U.rw])))
+        if r.get_style(SP.Position) is not None and rng.random() < 0.3:      # around the 50 % line, from either edge
+            P = s.PositionType
+            r.set_style(SP.Position, P(L(F(rng.randint(0, 60)), U.pct), L(F(rng.randint(20, 60)), rng.choice([U.pct, U.pct, U.rh])),
+                                       h_edge=rng.choice(list(P.HEdge)), v_edge=rng.choice(list(P.VEdge))))
         if rng.random() < 0.35: r.set_style(SP.WritingMode, rng.choice(list(s.WritingModeType)))
         if rng.random() < 0.5: r.set_style(SP.DisplayAlign, rng.choice(list(s.DisplayAlignType)))
         if rng.random() < 0.2: r.set_style(SP.TextAlign, rng.choice(list(s.TextAlignType)))
@@ -58,7 +66,25 @@ def redress(rng, d, hide):
     if rng.random() < 0.15: d.put_initial_value(SP.WritingMode, rng.choice(list(s.WritingModeType)))
     if rng.random() < 0.15: d.put_initial_value(SP.DisplayAlign, rng.choice(list(s.DisplayAlignType)))
     if rng.random() < 0.10: d.put_initial_value(SP.Origin, docgen.rvalue(rng, SP.Origin))
-    if rng.random() < 0.10: d.put_initial_value(SP.Extent, docgen.rvalue(rng, SP.Extent))
+    if rng.random() < 0.12: d.put_initial_value(SP.Extent, docgen.rvalue(rng, SP.Extent))      # any unit: tts:position is relative to the computed value
+    # initial values of the properties the filter overrides or converts (tts:position as an initial value must go away)
+    if rng.random() < 0.08: d.put_initial_value(SP.Position, docgen.rvalue(rng, SP.Position))
+    if rng.random() < 0.12: d.put_initial_value(SP.Color, rng.choice(docgen.COLORS))
+    if rng.random() < 0.10: d.put_initial_value(SP.BackgroundColor, rng.choice(docgen.COLORS))
+    if rng.random() < 0.12: d.put_initial_value(SP.TextAlign, rng.choice(list(s.TextAlignType)))
+    # regions that differ only in tts:textAlign (kept apart when it is preserved), from a pool of two values
+    if rng.random() < 0.35:
+        pool = rng.sample(list(s.TextAlignType), 2)
+        for r in d.iter_regions():
+            r.set_style(SP.TextAlign, rng.choice(pool + [None]))
+    # colour, background, alignment and tts:position specified on content elements
+    if d.get_body() is not None:
+        for e in d.get_body().dfs_iterator():
+            if isinstance(e, (m.Text, m.Br)): continue
+            if rng.random() < 0.10: e.set_style(SP.Color, rng.choice(docgen.COLORS))
+            if rng.random() < 0.08: e.set_style(SP.BackgroundColor, rng.choice(docgen.COLORS))
+            if rng.random() < 0.10: e.set_style(SP.TextAlign, rng.choice(list(s.TextAlignType)))
+            if rng.random() < 0.04: e.set_style(SP.Position, docgen.rvalue(rng, SP.Position))
     # several animation steps on some elements
     props = [p for p in docgen.ALL if not (not hide and p.__name__ in ("Display", "Visibility", "Opacity"))]
     elems = list(d.iter_regions()) + ([e for e in d.get_body().dfs_iterator() if not isinstance(e, m.Text)] if d.get_body() is not None else [])
@@ -81,24 +107,37 @@ def make_doc(rng, k):
     return d, g.n
 
 
+CFG_COLORS = ["red", "blue", "transparent", "black", "#FFFFFF", "#01020304", "#00000000", "#ffffffff", "rgb(1,2,3)", "rgba(255,255,0,128)"]
+SAFE_AREAS = [0, 0, 1, 5, 10, 10, 29, 30, 30]
+
+
 def make_cfg(rng):
-    import docgen
-    _, s = _mods()
-    col = lambda: rng.choice([None, None] + docgen.COLORS)
-    return dict(safe_area=rng.choice([0, 5, 10, 30]), preserve_text_align=rng.random() < 0.5, color=col(), bg_color=col())
+    """the configuration as the dictionary of a configuration file (README): every field, boundary values of safe_area (0, 1, 29,
+    30), colours with and without alpha incl. fully transparent and fully opaque; None = key absent (the default)"""
+    col = lambda: rng.choice([None] * 6 + CFG_COLORS)
+    return dict(safe_area=rng.choice(SAFE_AREAS + [None]), preserve_text_align=rng.choice([True, True, False, None]), color=col(), bg_color=col())
 
 
-def cfg_lit(cfg):
+def cfg_object(cfg):
+    """LCDDocFilterConfig built the way tt.py builds it: ModuleConfiguration.parse runs the field decoders (_safe_area_decoder, bool,
+    _color_decoder); absent keys take the dataclass defaults"""
+    from ttconv.filters.doc.lcd import LCDDocFilterConfig
+    return LCDDocFilterConfig.parse({k: v for k, v in cfg.items() if v is not None})
+
+
+def cfg_lit(co):
+    """the model's configuration record, read off the fields of the decoded configuration object"""
     import isdlit as L
     oc = lambda c: "None" if c is None else f"(Some {L.color_packed(c)})"
-    return f"(mkCfg {cfg['safe_area']} {C.boolean(cfg['preserve_text_align'])} {oc(cfg['color'])} {oc(cfg['bg_color'])})"
+    return f"(mkCfg {int(co.safe_area)} {C.boolean(bool(co.preserve_text_align))} {oc(co.color)} {oc(co.bg_color)})"
 
 
-def run_filter(d, cfg):
-    """apply the real filter in place; None or the exception"""
+def run_filter(d, co):
+    """apply the real filter in place (co: an LCDDocFilterConfig, or the keyword arguments of one); None or the exception"""
     from ttconv.filters.doc.lcd import LCDDocFilter, LCDDocFilterConfig
+    if isinstance(co, dict): co = LCDDocFilterConfig(**co)
     try:
-        LCDDocFilter(LCDDocFilterConfig(**cfg)).process(d)
+        LCDDocFilter(co).process(d)
     except Exception as e:          # noqa: the class of the exception is the compared outcome
         return e
     return None
@@ -146,12 +185,14 @@ def one_case(args):
                   for a in e.iter_animation_steps())
     out = []
     for j in range(ncfg):
-        cfg = make_cfg(rng)
-        if j == ncfg - 1 and ncfg > 1 and rng.random() < 0.5: cfg = dict(cfg, safe_area=10, preserve_text_align=False, color=None, bg_color=None)   # the defaults
+        raw = make_cfg(rng)
+        if j == ncfg - 1 and ncfg > 1 and rng.random() < 0.3: raw = dict(safe_area=None, preserve_text_align=None, color=None, bg_color=None)   # the defaults
+        co = cfg_object(raw)
+        cfg = dict(safe_area=co.safe_area, preserve_text_align=co.preserve_text_align, color=co.color, bg_color=co.bg_color)
         d = copy.deepcopy(d0)
         if L.doc_lit(d) != src: return dict(k=k, fatal="deepcopy changed the document")
-        exc = run_filter(d, cfg)
-        obs = dict(k=k, j=j, cfg={kk: (str(v) if kk in ("color", "bg_color") and v is not None else v) for kk, v in cfg.items()},
+        exc = run_filter(d, co)
+        obs = dict(k=k, j=j, cfg={kk: (str(v) if kk in ("color", "bg_color") and v is not None else v) for kk, v in cfg.items()}, raw_cfg=raw,
                    exc=None, leaves_bad=[], leaves_lost=[], twice=None, align_bad=[], nreg=len(list(d0.iter_regions())), size=size,
                    nreg_after=None, n_anim=0, computed_bad=[])
         if exc is not None:
@@ -181,19 +222,30 @@ def one_case(args):
                     if any(pa.get(pid) is not v for pid, v in pb.items() if pid in pa): obs["align_bad"].append(i)
             # a second application
             d2 = copy.deepcopy(d)
-            exc2 = run_filter(d2, cfg)
+            exc2 = run_filter(d2, co)
             obs["twice"] = (type(exc2).__name__ if exc2 is not None else (None if L.doc_lit(d2) == after_lit else "differs"))
+        SPs = s.StyleProperties
+        body_elems = [*d0.get_body().dfs_iterator()] if d0.get_body() is not None else []
+        obs["pos_regions"] = sum(1 for r in d0.iter_regions() if r.get_style(SPs.Position) is not None)
+        obs["pos_regions_extent"] = sorted({("none" if r.get_style(SPs.Extent) is None else r.get_style(SPs.Extent).height.units.value) for r in d0.iter_regions() if r.get_style(SPs.Position) is not None})
+        obs["pos_content"] = sum(1 for e in body_elems if e.get_style(SPs.Position) is not None)
+        obs["init_keys"] = sorted(p.__name__ for p, _ in d0.iter_initial_values() if p in (SPs.Position, SPs.Color, SPs.BackgroundColor, SPs.TextAlign, SPs.Extent, SPs.Origin, SPs.DisplayAlign, SPs.WritingMode))
+        if exc is None:
+            regs = list(d.iter_regions())
+            key = lambda r: (r.get_begin() or 0, r.get_end(), r.get_style(SPs.DisplayAlign))
+            obs["kept_apart_by_text_align"] = any(key(a) == key(b) and a.get_style(SPs.TextAlign) is not b.get_style(SPs.TextAlign)
+                                                  for i, a in enumerate(regs) for b in regs[i + 1:])
         obs["n_anim"] = sum(len(list(e.iter_animation_steps())) for e in ([*d0.iter_regions()] + ([*d0.get_body().dfs_iterator()] if d0.get_body() is not None else [])))
         n = f"{k}_{j}"
-        defs = (f"Definition c{n} := {cfg_lit(cfg)}.\n" + (f"Definition d{k} := {src}.\nDefinition t{k} : list Q := [{'; '.join(L.qlit(t) for t in ts)}].\n" if j == 0 else "") +
+        defs = (f"Definition c{n} := {cfg_lit(co)}.\n" + (f"Definition d{k} := {src}.\nDefinition t{k} : list Q := [{'; '.join(L.qlit(t) for t in ts)}].\n" if j == 0 else "") +
                 f"Definition o{n} : res doc := {olit}.")
         slots = [f"[lcd_outcome_close (lcd c{n} d{k}) o{n} || tie_sensitive c{n} d{k}]",
                  f"[same_key_order (lcd c{n} d{k}) o{n}]",
-                 f"case_static c{n} d{k} o{n}", f"case_strict c{n} d{k} o{n}",
+                 f"case_static c{n} d{k} o{n}",
                  f"case_timeline c{n} d{k} o{n} t{k}", f"case_timeline_strict d{k} o{n} t{k}", f"case_computed c{n} o{n} t{k}",
-                 f"[trig_position d{k}; trig_position_content d{k}; trig_nested c{n} d{k}; "
-                 f"no_hiding_b d{k}; wf_doc_b d{k}; lcd_outcome_close (lcd c{n} d{k}) o{n}]"]
-        counts = [1, 1, len(STATIC), 2, len(ts), len(ts), len(ts), len(TRIGS)]
+                 f"[trig_nested c{n} d{k}; no_hiding_b d{k}; wf_doc_b d{k}; lcd_outcome_close (lcd c{n} d{k}) o{n}]",
+                 f"[case_align c{n} d{k} o{n}]"]
+        counts = [1, 1, len(STATIC), len(ts), len(ts), len(ts), len(TRIGS), 1]
         out.append(((k, j), defs, slots, counts, obs))
     return dict(k=k, cases=out, times=[str(t) for t in ts], src=src)
 
@@ -216,13 +268,38 @@ def finding_witnesses():
         return [e.get_text() for r in ISD.from_model(d, t).iter_regions() for e in r.dfs_iterator() if isinstance(e, m.Text)]
     dflt = dict(safe_area=10, preserve_text_align=False, color=None, bg_color=None)
     res = {}
+    # lcd-position (repaired by d8691ec): tts:position with every kind of extent, both edges; the resulting displayAlign follows the position
+    bad = None
+    # (extent, displayAlign expected when the region is positioned 0% from the bottom edge: "after" iff 100 - computed height >= 50;
+    #  default resolutions: 15 rows, 1080 px)
+    exts = [(None, None), ((L(80, U.pct), L(80, U.pct)), "before"), ((L(100, U.px), L(300, U.px)), "after"), ((L(3, U.c), L(20, U.c)), "after"),
+            ((L(20, U.rh), L(80, U.rw)), "after")]
+    for ext, bottom_want in exts:
+        for init in (None, s.ExtentType(height=L(200, U.px), width=L(400, U.px))):
+            if ext is None: bottom_want = "before" if init is None else "after"      # 100 % / 200 px of 1080
+            for ve, want in ((s.PositionType.VEdge.top, "before"), (s.PositionType.VEdge.bottom, bottom_want)):
+                d, rs, b, dv, p, sp = mk(); dv.set_region(rs[0])
+                if init is not None: d.put_initial_value(SP.Extent, init)
+                rs[0].set_style(SP.Position, s.PositionType(L(10, U.pct), L(0, U.pct), h_edge=s.PositionType.HEdge.right, v_edge=ve))
+                if ext is not None: rs[0].set_style(SP.Extent, s.ExtentType(height=ext[0], width=ext[1]))
+                e = run_filter(d, dflt)
+                what = f"region with tts:position 10% 0% ({ve.name}) and tts:extent {'absent' if ext is None else str(ext[0].value) + ext[0].units.value} (initial extent {'set' if init else 'absent'})"
+                if e is not None: bad = bad or f"{what}: {type(e).__name__}"
+                elif rs[0].get_style(SP.Position) is not None or rs[0].get_style(SP.Origin).y.value != 10: bad = bad or f"{what}: region not at the safe area"
+                elif rs[0].get_style(SP.DisplayAlign).name != want:
+                    bad = bad or f"{what}: displayAlign {rs[0].get_style(SP.DisplayAlign).name}, expected {want}"
     d, rs, b, dv, p, sp = mk(); dv.set_region(rs[0])
     rs[0].set_style(SP.Position, s.PositionType(L(10, U.pct), L(10, U.pct))); rs[0].set_style(SP.Extent, s.ExtentType(L(80, U.pct), L(80, U.pct)))
     e = run_filter(d, dflt)
-    res["lcd-position"] = None if e is None else f"region with tts:position 10% 10% and tts:extent 80% 80%: {type(e).__name__}"
-    d, rs, b, dv, p, sp = mk(); p.set_style(SP.Position, s.PositionType(L(10, U.pct), L(10, U.pct)))
-    run_filter(d, dflt)
-    res["lcd-position-survives"] = "tts:position on a p is still there after the filter" if p.get_style(SP.Position) is not None else None
+    if e is not None: bad = f"region with tts:position 10% 10% and tts:extent 80% 80%: {type(e).__name__}"
+    res["lcd-position"] = bad
+    # lcd-position-survives (repaired by 5958b0b): on a p, a span, as an initial value, on a region
+    d, rs, b, dv, p, sp = mk(); pos = s.PositionType(L(10, U.pct), L(10, U.pct))
+    p.set_style(SP.Position, pos); sp.set_style(SP.Position, pos); d.put_initial_value(SP.Position, pos)
+    rs[0].set_style(SP.Position, pos); rs[0].set_style(SP.Extent, s.ExtentType(L(80, U.pct), L(80, U.pct)))
+    e = run_filter(d, dflt)
+    left = [n for n, x in (("p", p), ("span", sp), ("region", rs[0])) if x.get_style(SP.Position) is not None] + (["initial value"] if d.has_initial_value(SP.Position) else [])
+    res["lcd-position-survives"] = (f"{type(e).__name__}" if e is not None else (f"tts:position is still there after the filter on: {', '.join(left)}" if left else None))
     d, rs, b, dv, p, sp = mk(2); dv.set_region(rs[0]); p.set_region(rs[1])
     bef = texts(d, 0); run_filter(d, dflt); aft = texts(d, 0)
     res["lcd-nested-region-conflict"] = None if bef == aft else f"<div region=r0><p region=r1>: visible at t=0 before {bef}, after {aft}"
@@ -230,6 +307,11 @@ def finding_witnesses():
     al = lambda: [e.get_style(SP.TextAlign).name for r in ISD.from_model(d, 0).iter_regions() for e in r.dfs_iterator() if isinstance(e, m.P)]
     bef = al(); run_filter(d, dict(dflt, preserve_text_align=True)); aft = al()
     res["lcd-preserve-text-align-merge"] = None if bef == aft else f"preserve_text_align, regions r0 textAlign=start / r1 textAlign=end merged: p computes {bef} before, {aft} after"
+    if res["lcd-preserve-text-align-merge"] is None:      # without preserve_text_align, and with equal textAlign, the two regions are still merged
+        for ta, pta in ((s.TextAlignType.end, False), (s.TextAlignType.start, True)):
+            d, rs, b, dv, p, sp = mk(2); dv.set_region(rs[1]); rs[0].set_style(SP.TextAlign, s.TextAlignType.start); rs[1].set_style(SP.TextAlign, ta)
+            run_filter(d, dict(dflt, preserve_text_align=pta))
+            if len(list(d.iter_regions())) != 1: res["lcd-preserve-text-align-merge"] = f"regions with textAlign start / {ta.name} not merged (preserve_text_align={pta})"
     return res
 
 
@@ -259,6 +341,9 @@ def main():
     for fid in FINDINGS:
         if wit.get(fid): run.known(fid, "witness: " + wit[fid])
         else: stale.append(fid)
+    for fid in REPAIRED:
+        if wit.get(fid):
+            run.violation(f"repaired defect is back: {fid}: {wit[fid]}", dict(kind="witness", witness=fid, failure=wit[fid]))
     if stale: run.cov["stale_findings"] = [f"{f}: witness no longer fails" for f in stale]
 
     ndocs = 300 if run.tier == "quick" else 4000
@@ -297,12 +382,13 @@ def main():
         return out
     m_bad = [c for c, _ in locate(0)]
     order_bad = [c for c, _ in locate(1)]
-    static_bad = locate(2); strict_bad = locate(3)
-    tl_bad = locate(4); tl_strict = locate(5); comp_bad = locate(6)
+    static_bad = locate(2)
+    tl_bad = locate(3); tl_strict = locate(4); comp_bad = locate(5)
     trig = {cid: [True] * len(TRIGS) for cid in info}
-    for cid, i in locate(7): trig[cid][i] = False
+    for cid, i in locate(6): trig[cid][i] = False
     T = lambda cid, name: trig[cid][TRIGS.index(name)]
     tie_excused = [cid for cid in info if not T(cid, "tie") and cid not in m_bad]
+    align_coq_bad = [c for c, _ in locate(7)]
 
     outside = [cid for cid in info if not T(cid, "wf")]
     frc, fout = C.coqc(C.COQ + "/Findings/C16.v", 900)
@@ -314,7 +400,7 @@ def main():
     run.log(f"{ndocs} documents x {ncfg} configurations = {ncases} cases ({n_ok} filtered, {dict(excs)} raised, {merged_cases} with merged regions): "
             f"model/code mismatches {len(m_bad)} (+{len(tie_excused)} float ties), key-order mismatches {len(order_bad)}, "
             f"S static failures outside findings {len(static_bad)}, timeline failures outside findings {len(tl_bad)}, "
-            f"computed-style failures {len(comp_bad)}, broken case files {len(broken)}")
+            f"computed-style failures {len(comp_bad)}, preserved-alignment failures {len(align_coq_bad)}, broken case files {len(broken)}")
 
     def replay(cid, extra=None):
         obs, r = info[cid]
@@ -331,12 +417,6 @@ def main():
                            counts=dict(Counter(STATIC[i] for _, i in static_bad))))
     # ---- strict clauses that only a finding's trigger excuses -> KNOWN-FINDING while they fire
     fired = Counter()
-    excused = {(cid, i) for cid, i in strict_bad}
-    for cid, i in strict_bad:
-        if i == 0: fired["lcd-position-survives"] += 1
-        elif i == 1:
-            if (cid, 5) in {(c, x) for c, x in static_bad}: continue     # not excused: already a violation
-            if T(cid, "position"): fired["lcd-position"] += 1
     tl_bad_set = set(tl_bad)
     for cid, i in tl_strict:
         if (cid, i) in tl_bad_set: continue
@@ -351,6 +431,11 @@ def main():
         s_fail = True
         run.violation(f"snapshot of the filtered document does not compute the configured colour / background / alignment at t={info[cid][1]['times'][i]}",
                       dict(kind="S-on-code", clause="computed styles", first=replay(cid, dict(time=info[cid][1]["times"][i])), count=len(comp_bad)))
+    for cid in align_coq_bad[:1]:
+        s_fail = True
+        run.violation(f"preserve_text_align: the text alignment cascade of an element differs before / after the filter (document {cid[0]}, configuration {cid[1]})",
+                      dict(kind="S-on-code", clause="preserved alignment (computed_align)", spec="coq/Spec/LcdSpec.v computed_align / Model/LcdCases.v case_align",
+                           first=replay(cid), count=len(align_coq_bad)))
     # ---- Python-side observations (real snapshots, second application)
     py_tl, py_twice, py_comp, py_align = [], [], [], []
     for cid, (obs, r) in info.items():
@@ -361,9 +446,7 @@ def main():
         if obs["leaves_lost"] and cid not in py_tl: py_tl.append(cid)      # nothing visible may be lost, hiding or not
         if obs["twice"] is not None: py_twice.append(cid)
         if obs["computed_bad"]: py_comp.append(cid)
-        if obs["align_bad"]:
-            if obs["nreg_after"] < obs["nreg"]: fired["lcd-preserve-text-align-merge"] += 1
-            else: py_align.append(cid)
+        if obs["align_bad"]: py_align.append(cid)          # since fix 2d34128 also across merged regions
     if py_tl:
         s_fail = True; cid = py_tl[0]
         run.violation(f"real snapshots before / after the LCD filter show different text (document {cid[0]}, configuration {cid[1]}): {info[cid][0]['leaves_bad'][0]}",
@@ -378,7 +461,7 @@ def main():
                       dict(kind="S-on-code", clause="computed styles (ISD.from_model)", first=replay(cid), count=len(py_comp)))
     if py_align:
         s_fail = True; cid = py_align[0]
-        run.violation(f"preserve_text_align: a paragraph computes another textAlign after the filter although no region was merged (document {cid[0]})",
+        run.violation(f"preserve_text_align: a paragraph computes another textAlign after the filter (document {cid[0]})",
                       dict(kind="S-on-code", clause="preserved alignment", first=replay(cid), count=len(py_align)))
     for fid, n in fired.items():
         if not run.known(fid, f"{n} generated cases"):
@@ -400,27 +483,38 @@ def main():
     k0 = results[0]
     run.cov.update(evaluations=ncases, distinct_nontrivial=distinct,
                    rule="random well-formed documents (docgen.Gen: 0-4 regions, body/div/p/span/br/text/ruby, region references at any level incl. "
-                        "conflicting nested ones, every style property; regions re-dressed with origin/position/extent in pct/px/c/rh/rw, "
-                        "writing modes, displayAlign, textAlign, timings from a small pool so that fingerprints collide, 2-5 animation steps on 12 % of "
-                        "the elements; two thirds without display/visibility/opacity) x 3 configurations (safe_area in {0,5,10,30}, preserve_text_align, "
-                        "color, bg_color; the defaults half of the time for the last). Each case: model vs filtered document, S clauses on the "
-                        "implementation's result, timeline and computed styles at boundary/epsilon/midpoint times, second application. "
-                        "distinct_nontrivial = distinct (document, configuration) pairs on which the filter succeeded.",
+                        "conflicting nested ones, every style property; regions re-dressed with origin/extent in pct/px/c/rh/rw, tts:position (15 %, from "
+                        "either edge, with an extent in any unit or none), writing modes, displayAlign, textAlign from a pool of two values, timings from "
+                        "a small pool so that fingerprints collide, 2-5 animation steps on 12 % of the elements; initial values of origin, extent (any unit), "
+                        "position, color, backgroundColor, textAlign, displayAlign, writingMode; color/backgroundColor/textAlign/position specified on content "
+                        "elements; two thirds without display/visibility/opacity) x 3 configurations given as configuration-file dictionaries and decoded by "
+                        "LCDDocFilterConfig.parse (safe_area in {0,1,5,10,29,30} or absent, preserve_text_align true/false/absent, color and bg_color absent or "
+                        "one of 10 colour strings incl. #RRGGBBAA, transparent, opaque; all keys absent for the last configuration 30 % of the time). Each case: "
+                        "model vs filtered document, S clauses on the implementation's result, timeline and computed styles at boundary/epsilon/midpoint times, "
+                        "second application. distinct_nontrivial = distinct (document, configuration) pairs on which the filter succeeded.",
                    samples=[dict(document=k0["src"][:1500], configuration=k0["cases"][0][4]["cfg"], times=k0["times"][:8])],
                    documents=ndocs, cases_filtered=n_ok, exceptions=dict(excs), cases_with_merged_regions=merged_cases,
                    regions_per_document=hist(lambda o: o["nreg"]), safe_area=hist(lambda o: o["cfg"]["safe_area"]),
                    preserve_text_align=hist(lambda o: o["cfg"]["preserve_text_align"]),
                    color_configured=hist(lambda o: o["cfg"]["color"] is not None), bg_configured=hist(lambda o: o["cfg"]["bg_color"] is not None),
                    animation_steps_per_document=dict(max=max(o["n_anim"] for o, _ in info.values()), documents_with_two_or_more=sum(1 for o, _ in info.values() if o["j"] == 0 and o["n_anim"] >= 2)),
+                   documents_with_positioned_regions=sum(1 for o, _ in info.values() if o["j"] == 0 and o["pos_regions"]),
+                   extent_units_of_positioned_regions=dict(Counter(u for o, _ in info.values() if o["j"] == 0 for u in o["pos_regions_extent"])),
+                   documents_with_position_on_content=sum(1 for o, _ in info.values() if o["j"] == 0 and o["pos_content"]),
+                   initial_values=dict(Counter(kk for o, _ in info.values() if o["j"] == 0 for kk in o["init_keys"])),
+                   cases_regions_kept_apart_by_text_align=sum(1 for o, _ in info.values() if o.get("kept_apart_by_text_align")),
+                   configuration_keys_absent=dict(Counter(kk for o, _ in info.values() for kk, v in o["raw_cfg"].items() if v is None)),
                    documents_without_hiding=sum(1 for cid in info if cid[1] == 0 and T(cid, "no_hiding")),
                    query_times=sum(len(r["times"]) for r in results) * ncfg,
                    cases_outside_theorem_domain=len(outside), findings_file_compiles=(frc == 0),
                    model_code_mismatches=len(m_bad), float_tie_cases_excused=len(tie_excused), key_order_mismatches=len(order_bad),
-                   s_static_failures=len(static_bad), timeline_failures=len(tl_bad), findings_fired=dict(fired))
+                   s_static_failures=len(static_bad), timeline_failures=len(tl_bad), preserved_alignment_failures=len(align_coq_bad),
+                   findings_fired=dict(fired))
     run.assumptions += ["documents are well formed (C15): region identity is modelled by xml:id, style dictionaries have unique keys",
                         "the implementation compares origin / origin+extent with 50 in binary floating point when a length was given in c or px; "
                         "a model/code disagreement is excused only when such a quantity is within 1e-6 of 50 (counted as float_tie_cases_excused)",
-                        "exception classes are compared as AttributeError/AssertionError/ValueError -> 2 (the only failure the model has), anything else never matches"]
+                        "since fix d8691ec the model has no failing outcome on well-typed documents: every exception of the filter is a model/code mismatch and a failed 'filter succeeds' clause",
+                        "the configuration record of the model is read off the decoded LCDDocFilterConfig object (safe_area int, bool, colours as RGBA8)"]
     return run.finish(["harness/isdlit.py (Python objects -> Gallina literals)", "harness/docgen.py + harness/c16.py redress (input generator)",
                        "harness/gen_core.py (style tables translator)", "copy.deepcopy of a ContentDocument yields an equal document (checked per case through doc_lit)"])
 
